@@ -269,7 +269,7 @@ func c05Script(thread, n int, readsAfter bool) []*c05Op {
 	return ops
 }
 
-//verif:h prop=C05 p.ops0=1/2 p.ops1=1/1 p.flush=1/1 p.prefill=1/2 preempt=2/2 cover=linearized runs=30000000 timeout=300/900 steps=400000
+//verif:h prop=C05 p.ops0=1/2 p.ops1=1/1 p.flush=1/1 p.prefill=1/2 preempt=2/2 cover=linearized runs=30000000 timeout=900/900 steps=400000
 func H_C05_linearizable() {
 	root := NewMapDB()
 	store := kvstore.KVStore(root)
@@ -320,7 +320,7 @@ func H_C05_linearizable() {
 // H_C05_snapshot: an Iterate (with values) running against a goroutine that performs two writes must report a
 // set of entries that existed together at one instant.
 //
-//verif:h prop=C05 preempt=2/3 cover=snapshot runs=30000000 timeout=300/900 steps=400000
+//verif:h prop=C05 preempt=2/3 cover=snapshot runs=30000000 timeout=900/900 steps=400000
 func H_C05_snapshot() {
 	root := NewMapDB()
 	store := kvstore.KVStore(root)
@@ -369,7 +369,7 @@ func H_C05_snapshot() {
 // that operations on one entry really race through two views (the per-view mutex does not serialise them): one
 // operation per goroutine plus final reads.
 //
-//verif:h prop=C05 preempt=2/3 cover=linearized runs=30000000 timeout=300/900 steps=400000
+//verif:h prop=C05 preempt=2/3 cover=linearized runs=30000000 timeout=900/900 steps=400000
 func H_C05_samekey() {
 	root := NewMapDB()
 	store := kvstore.KVStore(root)
@@ -403,7 +403,7 @@ func H_C05_samekey() {
 // H_C05_prefix: DeletePrefix / Clear through one view against TWO writes through the other (a fresh key, then an
 // existing one): the final contents must be those of some linearization (DeletePrefix is atomic).
 //
-//verif:h prop=C05 preempt=2/3 cover=linearized runs=30000000 timeout=300/900 steps=400000
+//verif:h prop=C05 preempt=2/3 cover=linearized runs=30000000 timeout=900/900 steps=400000
 func H_C05_prefix() {
 	root := NewMapDB()
 	store := kvstore.KVStore(root)
